@@ -241,6 +241,22 @@ def r_categorical_implicit_last(m):
     return dict(observed='all spellings agree', expected='', violates=False)
 
 
+def r_trig_moment_at_zero(m):
+    """the real get_trig_moment on a distribution whose closed-form cf is piecewise at 0, for powers whose expansion has a constant term"""
+    import sympy as sp, mpmath as mp
+    from program.distribution import Beta
+    from program.assignment.functional_assignment import FunctionalAssignment
+    FunctionalAssignment.exact_func_moments = True
+    x = sp.Symbol('x')
+    for p, s_, c in ((1, 2, 0), (2, 0, 2), (1, 1, 1), (2, 2, 2)):
+        pw = {k: v for k, v in (('Id', p), ('Sin', s_), ('Cos', c)) if v}
+        got = sp.N(sp.sympify(str(FunctionalAssignment.get_trig_moment(Beta(['2', '3']), pw))), 30)
+        exp = mp.quad(lambda t: t ** p * mp.sin(t) ** s_ * mp.cos(t) ** c * 12 * t * (1 - t) ** 2, [0, 1])
+        if abs(complex(got) - complex(exp)) > 1e-12:
+            return dict(observed=f'Beta(2,3), powers {pw}: {got}', expected=str(exp), violates=True, input=pw)
+    return dict(observed='all agree with quadrature', expected='', violates=False)
+
+
 def main():
     req = json.load(sys.stdin)
     kind = req['replay']['kind']
